@@ -490,6 +490,11 @@ package badger
 
 // sendToWriteCh: refused while writes are blocked; the batch limits are checked on all entries
 // before anything is queued; the queued request carries exactly the caller's entries.
+//@ func (*DB).writeRequests.done
+//@   props C03 C10
+//@   light
+//@   assert[every-request-gets-the-error] before call Done : r == reqs[rangeindex + 1] && r.Err == err
+
 //@ func (*DB).sendToWriteCh
 //@   props C28 C03
 //@   light
@@ -1616,12 +1621,16 @@ package badger
 // A request batch is acknowledged with nil only after the value log and the memtable (and its
 // WAL) took every request; every failure acknowledges with the error.
 //@ func (*DB).writeRequests
-//@   props C10 C03
+//@   props C10 C03 C32
 //@   light
 //@   assert[vlog-before-lsm] before call writeToLSM : called(write#1) && ret(write#1) == nil
 //@   assert[ack-nil-only-after-all] before call done#4 : arg0 == nil && called(write#1) && ret(write#1) == nil
 //@   assert[ack-vlog-error] before call done#1 : arg0 == ret(write#1) && ret(write#1) != nil
 //@   assert[ack-lsm-error] before call done#3 : arg0 == ret(writeToLSM#1) && ret(writeToLSM#1) != nil
+//@   assert[subscribers-told-before-ack] before call done#4 : called(sendUpdates#1)
+//@   assert[subscribers-get-this-batch] before call sendUpdates : arg0 == db.pub && arg1 == reqs
+//@   assert[request-written] before call writeToLSM : arg0 == db && arg1 == b
+//@   assert[done-marks-every-request] before call ensureRoomForWrite#1 : len(b.Entries) != 0
 
 // ---- log records (C16) and per-record IVs (C23) ----
 
